@@ -186,7 +186,10 @@ def check_history(case):
                 # a held signal's visibility is changed IN PLACE (internal <-> port), then the object is assigned under
                 # `name` (a move, or the same name again) / added again under its own name: after the assignment or add()
                 # it is listed where its visibility says
-                sigs = sorted(n_ for n_, v_ in spec.items() if isinstance(v_, h.Signal) and v_.name == n_)
+                # (objects held under ONE name only: one that hand-renaming has left under two keys is re-filed under the
+                #  name it carries, and what becomes of its other key after an in-place change is outside the property)
+                sigs = sorted(n_ for n_, v_ in spec.items() if isinstance(v_, h.Signal) and v_.name == n_
+                              and sum(1 for o_ in spec.values() if o_ is v_) == 1)
                 if not sigs or not is_mod:
                     continue
                 src = sigs[rnd.randrange(len(sigs))]
